@@ -125,7 +125,7 @@ CLAIMS = {
   'technique': 'Coq proofs over R of the clipping bound, neighbouring-batch sensitivity and ghost-norm identities on the generated clip expression; neighbouring-batch runs on the real optimizers',
   'text': ('For the clip factor expression generated from the optimizers (flat, adaptive, per-layer, ghost coefficient: min(1, C/(n+1e-6))): ||clip(g)|| <= C, '
            'flat/adaptive sensitivity (removing any example from any batch changes the pre-noise sum by a vector of joint norm <= C), per-layer sensitivity (per tensor <= C_k, '
-           'jointly <= root-sum-square), invariance under physical splitting, and the ghost-clipping norm identities for nn.Linear (2-D, 3-D weight, 3-D bias) for ALL extents '
+           'jointly <= root-sum-square), invariance under physical splitting, and the ghost-clipping norm identities for nn.Linear (2-D, 3-D weight, 3-D bias) and nn.Embedding (optional padding index; the unmasked formula is refuted) for ALL extents '
            'are theorems over the reals. The ghost formulas and the clip factor are tied to the code by pins + integer/binary64 correspondence runs; the property itself is '
            'tested on real GradSampleModules with gradient scales 1e-4..1e3. Partial: per-sample gradients being a function of the sample alone is C01/C15; float rounding inside '
            'tensor kernels is not modelled.'),
